@@ -279,9 +279,14 @@ def search(tier, rng):
     if exe is None:
         yield 'p_fixed_point FAIL class=fixed_point_build the harness does not build with --features fixed_point'
         return
-    sel = [l for k, l in enumerate(lines) if l.startswith('p_total arc') or l.startswith('p_total sector') or k % 4 == 0]
-    procs = []
+    # selection per case, not per position (the batch is a 12-family round robin: a stride would alias with it):
+    # every arc / sector / dotted rectangle (the users of `Real`), a random quarter of everything else
+    def dotted(l):
+        t = l.split()
+        return t[1] == 'rect' and 'S' in t and len(t) - t.index('S') - 1 >= 5 and t[-1] == '1'
+    sel = [l for l in lines if l.startswith('p_total arc') or l.startswith('p_total sector') or dotted(l) or rng.random() < 0.25]
     nsh = 4
+    procs = []
     for j in range(nsh):
         part = sel[j::nsh]
         procs.append((part, subprocess.Popen([exe], stdin=subprocess.PIPE, stdout=subprocess.PIPE, stderr=subprocess.DEVNULL, text=True)))
@@ -289,15 +294,52 @@ def search(tier, rng):
     outs = {}
 
     def feed(j, part, p):
-        o, _ = p.communicate('\n'.join(part) + '\n')
+        try:
+            o, _ = p.communicate('\n'.join(part) + '\n', timeout=900 if tier == 'quick' else 3000)
+        except subprocess.TimeoutExpired:
+            p.kill()
+            o, _ = p.communicate()
         outs[j] = o.split('\n')
     th = [threading.Thread(target=feed, args=(j, part, p)) for j, (part, p) in enumerate(procs)]
     [t.start() for t in th]
     [t.join() for t in th]
     for j, (part, _) in enumerate(procs):
         for k, l in enumerate(part):
-            r = outs[j][k] if k < len(outs[j]) and outs[j][k] else 'MISSING-OUTPUT'
+            r = outs[j][k] if k < len(outs[j]) and outs[j][k] else 'MISSING-OUTPUT (fixed_point oracle killed or timed out)'
             yield 'p_fixed_point %s :: %s' % (r, l)
+
+
+def degenerate(rng, case):
+    """coincident / collinear vertices for lines, triangles and polylines (zero length, two or three equal vertices, collinear)"""
+    t = case.split()
+    fam = t[0]
+    k = rng.random()
+    if fam == 'line' and k < 0.2:
+        t[3], t[4] = t[1], t[2]
+    elif fam == 'tri' and k < 0.3:
+        p = [(int(t[1]), int(t[2])), (int(t[3]), int(t[4])), (int(t[5]), int(t[6]))]
+        if k < 0.05:
+            p = [p[0]] * 3
+        elif k < 0.2:
+            i, j = rng.sample(range(3), 2)
+            p[j] = p[i]
+        else:
+            # collinear, distinct
+            # simple exact construction: p2 := p1 + 2d, p3 := p1 + d  (d small enough to stay in range)
+            dx, dy = rng.randrange(-400, 401), rng.randrange(-400, 401)
+            x0, y0 = max(-200, min(200, p[0][0])), max(-200, min(200, p[0][1]))
+            p = [(x0, y0), (x0 + 2 * dx, y0 + 2 * dy), (x0 + dx, y0 + dy)]
+            rng.shuffle(p)
+        t[1:7] = [str(v) for q_ in p for v in q_]
+    elif fam == 'poly' and k < 0.3 and int(t[3]) >= 2:
+        n = int(t[3])
+        i = rng.randrange(n - 1)
+        if k < 0.1:
+            for j in range(n):
+                t[4 + 2 * j], t[5 + 2 * j] = t[4], t[5]
+        else:
+            t[4 + 2 * (i + 1)], t[5 + 2 * (i + 1)] = t[4 + 2 * i], t[5 + 2 * i]
+    return ' '.join(t)
 
 
 def search_default(tier, rng):
@@ -308,6 +350,10 @@ def search_default(tier, rng):
     yield 'p_total tri -480 -1 240 909 1 422 S 0 1 1 2'
     yield 'p_total image 3 3 10 10 7'
     yield 'p_total tri 10 10 410 10 10 410 S 1 0 0 1'
+    yield 'p_total rect 0 0 1024 1024 S 0 1 4 1 1'
+    yield 'p_total rect -1024 -1024 1024 1 S 1 1 5 2 1'
+    yield 'p_total line 7 7 7 7 S 0 1 30 1'
+    yield 'p_total tri 5 5 5 5 5 5 S 1 1 9 2'
     yield 'p_total text 5 -7 0 1 1 0 10 15 3'
     for k in range(n):
         fam = FAMILIES[k % len(FAMILIES)]
@@ -342,9 +388,12 @@ def search_default(tier, rng):
                 case = J('poly', 0, 0, nv, *[xb(rng) for _ in range(2 * nv)], 'S', 0, 0, 0, 0)
         else:
             case = zoo_case(rng, fam, c=cb, e=e, maxw=0, absolute=True, dotted=True)
+        case = degenerate(rng, case)
         if ' S ' in case:
             head, _ = case.rsplit(' S ', 1)
             case = head + ' ' + J('S', rng.randrange(2), rng.randrange(2), rng.choice(W), rng.randrange(3))
-            if case.startswith('rect ') and rng.random() < 0.35:
-                case += ' 1'   # dotted stroke style
+            if case.startswith('rect ') and rng.random() < 0.4:
+                # dotted stroke style: widths around the `dot_size < 4` switch of rectangle/styled.rs, full-size rectangles
+                head, _ = case.rsplit(' S ', 1)
+                case = head + ' ' + J('S', rng.randrange(2), 1, rng.choice([1, 2, 3, 4, 5, 8, 16, 31, 32, 63, 128]), rng.randrange(3), 1)
         yield 'p_total ' + case
